@@ -156,8 +156,12 @@ func (t *Translator) processStreamLine(line string, state *StreamingState, w htt
 		return nil
 	}
 
+	// a delta may carry text and tool calls at once; handle the text first, then fall
+	// through to the tool calls instead of dropping them
 	if content, ok := delta["content"].(string); ok && content != "" {
-		return t.handleContentDelta(content, state, w, rc)
+		if err := t.handleContentDelta(content, state, w, rc); err != nil {
+			return err
+		}
 	}
 
 	if toolCalls, ok := delta["tool_calls"].([]interface{}); ok {
